@@ -22,6 +22,17 @@ Conventions derived from the docstrings / the property text
     = u_j - u_i; arrow centres are the pair midpoints and arrow unit vectors the pair directions in the reference
     system (reference = 0 or 1).
 
+Object / process histories (the property holds for every history of calls, not just for fresh objects): every case
+carries a history from pbt/gens_c17.histories - earlier queries on the two System objects (neighbour lists with other
+cutoffs, also stored as the documented 'neighbors' attribute, r0(), dvect, scaled reads, wrap()), either System object
+first existing in another state and brought to the judged one in place through the public position / cell / pbc setters,
+the tools run on an unrelated pair of systems in between, repeated calls; the strain clause keeps one Strain object
+through two states (solved and read in the first - judged there too where the expectation is known -, then changed
+through solve_G / clear_properties / theta_max / set_p_vectors / build_p_vectors) and judges the second with the same
+oracle as a fresh object; DifferentialDisplacement objects are re-solved after other cutoffs / references / swapped or
+updated systems.  The judged calls and their oracles are the same as for a fresh object; queries must leave positions
+and cell bit-identical (wrap(): moved by whole cell vectors along periodic axes only).
+
 Tolerances: every comparison is absolute 1e-9 (lengths in Angstrom-scale units, tensors dimensionless, Nye in
 1/length) unless stated: positions are below ~150 in magnitude, so neighbour vectors carry <= 4e-14 absolute rounding,
 the least-squares solves are only judged where the neighbour set has singular-value ratio >= 0.05 (condition <= 20),
@@ -51,7 +62,18 @@ RULE = ("reference crystals fcc / bcc / hcp (c/a 1.55-1.9 incl. ideal) / B2 / L1
         "several cells and systems declaring different periodic axes.  Non-trivial: (F has both a rotation and a strain "
         "part, or the slip is not along a cell edge) and the crystal is re-oriented, rigidly rotated or has two atom "
         "types; displacement clause: at least one atom changed its periodic image (same crystal condition); invariance "
-        "clause: renumbered and translated")
+        "clause: renumbered and translated.  Every case also carries an object / process history (gens_c17.histories): 0-3 "
+        "earlier queries on each of the two System objects (neighborlist with a cutoff from any of the first three shell gaps, "
+        "such a list stored as the documented 'neighbors' attribute, r0(), dvect/dmag, scaled reads, derived box quantities, "
+        "wrap()); either System object may first exist in another state (other positions / cell / opposite periodicity, "
+        "whole-number coordinates handed over as integers) and be brought to the judged state in place through one of six "
+        "position routes x six cell routes x the pbc setter, with list / Fortran-ordered / read-only inputs; the tools run on an "
+        "unrelated pair of systems in between and the function calls are repeated; one Strain object is solved in an earlier "
+        "state (the same System object under another F, other reference vectors with known expected G, another theta_max), "
+        "read, changed through solve_G() / solve_G(theta_max) / clear_properties() / the theta_max setter / set_p_vectors / "
+        "build_p_vectors and judged after the second solve with its properties read in a drawn order; DifferentialDisplacement "
+        "objects are re-solved after another cutoff / reference / swapped systems / in-place updates of their systems / the "
+        "reference setter; neighbour lists reach every tool by cutoff, explicit list or the systems' 'neighbors' attribute")
 ASSUMPTIONS = ["numpy linear algebra is correct",
                "System.supersize / System.rotate build the crystal they document (judged by C04), Box keeps the cell it is given "
                "(C01), NeighborList lists exactly the pairs below the cutoff (C03): the check compares per-pair results against "
@@ -67,7 +89,9 @@ ASSUMPTIONS = ["numpy linear algebra is correct",
 LEVEL_TEXT = ("Hand-built fcc/bcc/hcp/B2/L1_2 crystals in standard, re-oriented (orthogonal and tilted), rigidly rotated and renumbered "
               "settings under every periodicity setting; homogeneous gradients (rotation <= 8 deg, strain <= 3 %), rigid slips at every "
               "layer gap, cutoffs across the first three shell gaps, all reference routes of Strain (base system, per-atom / single / "
-              "axes-transformed / first-shell-only p vectors, given neighbour lists) and both references of DifferentialDisplacement.")
+              "axes-transformed / first-shell-only p vectors, given neighbour lists) and both references of DifferentialDisplacement; "
+              "all of it also after earlier use of the same System / Strain / DifferentialDisplacement objects (queries, stale "
+              "'neighbors' attributes, in-place updates through every public setter, re-solves) and of the same process.")
 TECHNIQUE = ("closed-form expectation from the imposed F / slip (G = F^-T, strain/rotation/invariants, zero Nye, n_across * relative "
              "displacement, u_j - u_i per listed pair), own neighbour enumeration, class-vs-function-vs-own-curl agreement on slipped "
              "crystals, metamorphic translation / renumbering")
@@ -405,7 +429,8 @@ def make_dd(am, s0, s1, reference, lazy, other=None, pre=None, reusable=False, *
     with another cutoff and the other reference, read, then solve(list, reference); (4) an object solved for the two
     systems in swapped roles, then solve(system0, system1, list); (5) 'pre': an object that was solved while system1
     was in an earlier state (the System object has since been updated in place), solved again - without arguments where
-    its stored list is still the reference system's list ('reusable'), else with the list / cutoff"""
+    its stored list is still the reference system's list ('reusable'), else with the list / cutoff; (6) construction
+    with the other reference, the reference then set through the property, then solve(list)"""
     DD = am.defect.DifferentialDisplacement
     if lazy == 5 and pre is None:
         lazy = 3
@@ -425,6 +450,10 @@ def make_dd(am, s0, s1, reference, lazy, other=None, pre=None, reusable=False, *
     elif lazy == 4:
         dd = DD(s1, s0, cutoff=other, reference=reference)
         dd.solve(system0=s0, system1=s1, **nb)
+    elif lazy == 6:
+        dd = DD(s0, s1, reference=1 - reference)
+        dd.reference = reference
+        dd.solve(**nb)
     elif lazy == 5:
         dd = pre
         if 'neighbors' in nb or not reusable:
@@ -438,7 +467,7 @@ def make_dd(am, s0, s1, reference, lazy, other=None, pre=None, reusable=False, *
 
 # ----------------------------------------------------------------------------- object / process histories
 
-NOHIST = {'ops0': [], 'ops1': [], 'build1': None, 'decoy': False, 'repeat': False, 'forms': 0, 'intpos': False}
+NOHIST = {'ops0': [], 'ops1': [], 'build0': None, 'build1': None, 'decoy': False, 'repeat': False, 'forms': 0, 'intpos': False}
 
 
 def other_cutoff(xt, rc, k, x):
@@ -565,55 +594,77 @@ def set_state(s, pos, vects, origin, pbc, b, labels):
     labels.add('setbox%d' % br)
 
 
-def make_current(am, hist, r, stateA, pos1, vects1, origin1, pbc1, xt, rc, labels, allow_wrap, while_A=None):
-    """The deformed System object of the case.  Without 'build1' a fresh object (then queried); with it the object first
-    exists in another state (stateA = (pos, vects, origin); possibly other pbc; queried there; while_A(s1) lets the
-    caller create analysis objects on it; keptA: the cell of that state arrived unchanged), and is then updated in place to the judged state and queried again.
-    Returns (s1, box arrived unchanged, positions now held)."""
-    b = hist['build1']
-    ops = hist['ops1']
+def staged_system(am, b, ops, intpos, atype, stateA, final, xt, rc, labels, allow_wrap, who):
+    """One System object of the case with its earlier life.  final = (pos, vects, origin, pbc) is the judged state.
+    Without an in-place build b the object is created in that state; with b it first exists in stateA = (pos, vects,
+    origin) (possibly with the opposite periodicity), is queried there (first half of ops) and handed back, so that the
+    caller can create analysis objects on it; finish() then brings it to the judged state through the public setters
+    selected by b, runs the remaining queries and returns (cell arrived unchanged, positions now held).
+    Returns (system, cell of the first state arrived unchanged, finish)."""
+    pos, vects, origin, pbc = final
     if b is None:
-        s1 = mk_system(pos1, r.atype, vects1, origin1, pbc1)
+        s = mk_system(pos, atype, vects, origin, pbc, intpos, labels)
+        keptA = box_kept(s, vects, origin)
         first = []
     else:
         posA, vectsA, originA = stateA
-        pbcA = [not x for x in pbc1] if b['pbcflip'] else pbc1
-        s1 = mk_system(posA, r.atype, vectsA, originA, pbcA, hist['intpos'], labels)
-        keptA = box_kept(s1, vectsA, originA)
+        pbcA = [not x for x in pbc] if b['pbcflip'] else pbc
+        s = mk_system(posA, atype, vectsA, originA, pbcA, intpos, labels)
+        keptA = box_kept(s, vectsA, originA)
         first, ops = ops[:(len(ops) + 1) // 2], ops[(len(ops) + 1) // 2:]
-        run_queries(am, s1, first, xt, rc, labels, allow_wrap)
-        if while_A is not None:
-            while_A(s1, keptA)
-        set_state(s1, pos1, vects1, origin1, pbc1, b, labels)
-        if b['pbcflip']:
-            labels.add('pbc_set_later')
-    kept = box_kept(s1, vects1, origin1)
-    snap = snapshot(s1)
-    if b is not None:
-        # every setter route must have produced the judged state itself
-        require(np.abs(snap[0] - pos1).max() <= 64 * DR.EPS * (amax(pos1) + amax(vects1) + amax(origin1)),
-                lambda: 'positions set through route pos=%d box=%d form=%d differ from the given ones by %.3g'
-                % (b['pos'] % 6, b['box'] % 6, b['form'] % 4, np.abs(snap[0] - pos1).max()))
-    wrapped = run_queries(am, s1, ops, xt, rc, labels, allow_wrap) if kept else False
-    p1 = after_queries(s1, snap, wrapped, 'deformed system') if kept else snap[0]
-    if first or ops:
-        labels.add('queried1')
-    if wrapped:
-        labels.add('am_wrapped')
-    return s1, kept, p1
+        if keptA:
+            run_queries(am, s, first, xt, rc, labels, allow_wrap)
+
+    def finish():
+        if b is not None:
+            set_state(s, pos, vects, origin, pbc, b, labels)
+            if b['pbcflip']:
+                labels.add('pbc_set_later')
+            labels.add('ref_inplace_built' if who.startswith('ref') else 'cur_inplace_built')
+        kept = box_kept(s, vects, origin)
+        snap = snapshot(s)
+        if b is not None:
+            # every setter route must have produced the judged state itself
+            require(np.abs(snap[0] - pos).max() <= 64 * DR.EPS * (amax(pos) + amax(vects) + amax(origin)),
+                    lambda: '%s: positions set through route pos=%d box=%d form=%d differ from the given ones by %.3g'
+                    % (who, b['pos'] % 6, b['box'] % 6, b['form'] % 4, np.abs(snap[0] - pos).max()))
+        wrapped = run_queries(am, s, ops, xt, rc, labels, allow_wrap) if kept else False
+        now = after_queries(s, snap, wrapped, who) if kept else snap[0]
+        if first or ops:
+            labels.add('queried%d' % (0 if who.startswith('ref') else 1))
+        if wrapped:
+            labels.add('am_wrapped')
+        return kept, now
+    return s, keptA, finish
 
 
-def make_reference(am, hist, r, pbc, xt, rc, labels, allow_wrap):
-    s0 = mk_system(r.pos, r.atype, r.vects, r.origin, pbc, hist['intpos'], labels)
-    kept = box_kept(s0, r.vects, r.origin)
-    snap = snapshot(s0)
-    wrapped = run_queries(am, s0, hist['ops0'], xt, rc, labels, allow_wrap) if kept else False
-    p0 = after_queries(s0, snap, wrapped, 'reference system') if kept else snap[0]
-    if hist['ops0']:
-        labels.add('queried0')
-    if wrapped:
-        labels.add('am_wrapped')
-    return s0, kept, p0
+def make_current(am, hist, r, stateA, pos1, vects1, origin1, pbc1, xt, rc, labels, allow_wrap, while_A=None):
+    """the deformed System object (see staged_system); while_A(s1, keptA) is called while it is in its first state.
+    Returns (s1, cell arrived unchanged, positions now held)."""
+    s1, keptA, finish = staged_system(am, hist['build1'], hist['ops1'], hist['intpos'], r.atype, stateA,
+                                      (pos1, vects1, origin1, pbc1), xt, rc, labels, allow_wrap, 'deformed system')
+    if hist['build1'] is not None and while_A is not None:
+        while_A(s1, keptA)
+    kept, now = finish()
+    return s1, kept, now
+
+
+def reference_stateA(r):
+    """an earlier state of the reference object: the crystal expanded by 0.3 % about a point and shifted (the same pairs
+    are within every cutoff the clauses use: their margins to the shells are 1 % or more)"""
+    c = r.origin + 0.5 * r.vects.sum(axis=0)
+    t = 0.1 * r.vects[0]
+    return (c + 1.003 * (r.pos - c) + t, 1.003 * r.vects, c + 1.003 * (r.origin - c) + t)
+
+
+def make_reference(am, hist, r, pbc, xt, rc, labels, allow_wrap, staged=False):
+    """the reference System object; staged: returns (s0, finish) with the object still in its first state"""
+    s0, _, finish = staged_system(am, hist.get('build0'), hist['ops0'], hist['intpos'], r.atype, reference_stateA(r),
+                                  (r.pos, r.vects, r.origin, pbc), xt, rc, labels, allow_wrap, 'reference system')
+    if staged:
+        return s0, finish
+    kept, now = finish()
+    return s0, kept, now
 
 
 @functools.lru_cache(maxsize=1)
@@ -689,8 +740,13 @@ def oracle_displacement(case):
     # object history: earlier queries on both System objects (no wrap(): this clause keeps its own book of the cell
     # vectors every atom was moved by; one query per object and no r0(), to keep this cheap clause cheap - the other
     # clauses run the full lists); the deformed object may first exist as the reference crystal / half-way state
-    light = lambda ops: [dict(q, op='dvect' if q['op'] == 'r0' else q['op']) for q in ops[:1]]
-    hist = dict(hist, ops0=light(hist['ops0']), ops1=light(hist['ops1']))
+    # Neighbour lists are only asked of systems whose atoms are inside their cell along the open axes (random / several-
+    # cell displacements put atoms further than a cutoff outside it, where atomman's cell-list binning is not defined:
+    # out-of-range bin indices, a NeighborList matter outside this property)
+    inside = mode in ('F', 'slip')
+    swap = {'r0': 'dvect'} if inside else {'r0': 'dvect', 'nlist': 'scaled', 'attr': 'derived'}
+    light = lambda ops, sw: [dict(q, op=sw.get(q['op'], q['op'])) for q in ops[:1]]
+    hist = dict(hist, ops0=light(hist['ops0'], {'r0': 'dvect'}), ops1=light(hist['ops1'], swap))
     s0, kept0, _ = make_reference(am, hist, r, pbc, xt, rc, labels, False)
     stateA = (r.pos, r.vects, r.origin)
     if hist['build1'] and hist['build1']['state'] == 'other':
@@ -1014,13 +1070,24 @@ def oracle_strain(case):
             posA, vectsA, originA, _, _ = deform(r, FA, shist['move0'], pbc)
             IA, JA, _, _ = pair_table(posA, vectsA, pbc, rc)
             assert np.array_equal(IA, I0) and np.array_equal(JA, J0), 'generator: shells not complete in the earlier state'
+            noisy = False
+            if shist['pset'] % 2:
+                # every other earlier state is not homogeneous (per-atom noise of 0.3 % of the neighbour distance, same
+                # pairs): G varies from atom to atom and the Nye tensor held by the object is not zero
+                pn = posA + DR.uniform(3 * N, 1 + shist['pset']).reshape(-1, 3) * (0.003 * dnn)
+                In, Jn, _, _ = pair_table(pn, vectsA, pbc, rc)
+                if np.array_equal(In, I0) and np.array_equal(Jn, J0):
+                    posA, noisy = pn, True
+                    labels.add('stage0_noisy')
 
             def while_A(sA, keptA):
                 with warnings.catch_warnings():
                     warnings.simplefilter('ignore')
                     pre['st'] = new_strain(sA, base, pv, kw)
                     with strain_guard(single_list and wrap_axes is None, few):
-                        stage0(pre['st'][0], np.linalg.inv(FA).T, keptA)
+                        stage0(pre['st'][0], np.linalg.inv(FA).T, keptA and not noisy)
+                        if noisy and not few:
+                            require(amax(pre['st'][0].nye) > 1e-7, 'Nye tensor of a crystal with per-atom noise is zero')
                     if case.get('ddlazy', 0) == 5:
                         pre['dd'] = am.defect.DifferentialDisplacement(s0, sA, cutoff=rc, reference=case['ddref'])
             # the periodicity stays: the lists made in the earlier state are the lists of the judged state only then
@@ -1050,14 +1117,21 @@ def oracle_strain(case):
                 with strain_guard(single_list and wrap_axes is None, few):
                     stage0(st, np.linalg.inv(F @ np.linalg.inv(M)).T, judged)
                 if refmode == 'base':
-                    k = shist['pset'] % 3
-                    if k == 0:
-                        st.build_p_vectors(s0, cutoff=rcv)
-                    elif k == 1:
-                        st.build_p_vectors(s0, neighbors=am.NeighborList(system=s0, cutoff=rcv))
+                    k = shist['pset'] % 6
+                    sb = s0
+                    if k >= 3 and judged:
+                        # the strained reference object itself becomes the reference crystal (updated in place)
+                        sb = s0A
+                        set_state(sb, r.pos, r.vects, r.origin, pbc, shist['build'], labels)
+                        require(box_kept(sb, r.vects, r.origin), 'cell of the reference set in place differs from the one given')
+                        labels.add('ref_inplace_built')
+                    if k % 3 == 0:
+                        st.build_p_vectors(sb, cutoff=rcv)
+                    elif k % 3 == 1:
+                        st.build_p_vectors(sb, neighbors=am.NeighborList(system=sb, cutoff=rcv))
                     else:
-                        s0.neighbors = am.NeighborList(system=s0, cutoff=rcv)
-                        st.build_p_vectors(s0)
+                        sb.neighbors = am.NeighborList(system=sb, cutoff=rcv)
+                        st.build_p_vectors(sb)
                 else:
                     st.set_p_vectors(pv, axes=wrap_axes)
             elif smode == 'theta':
@@ -1187,19 +1261,18 @@ def oracle_strain(case):
 
 # ----------------------------------------------------------------------------- slip
 
-def _dd_check(am, what, s0, s1, r, pos1, pbc, rc, u, reference, nbrmode, labels, lazy=0, pos0=None, other=None, pre=None):
+def _dd_check(am, what, s0, s1, r, pos1, pbc, rc, u, reference, nbrmode, labels, lazy=0, pos0=None, other=None, pre=None, reusable=False):
     """DifferentialDisplacement on (s0, s1): per listed pair u_j - u_i, centres and directions in the reference system
     (pos0 / pos1: the positions the two System objects hold now)"""
     N = r.natoms
     refpos = (r.pos if pos0 is None else pos0) if reference == 0 else pos1
     with warnings.catch_warnings():
         warnings.simplefilter('ignore')
-        # a list stored while system1 was in an earlier state is still the reference system's list for reference=0 only
         if nbrmode == 'neighbors':
             nl = am.NeighborList(system=s0 if reference == 0 else s1, cutoff=rc)
-            dd = make_dd(am, s0, s1, reference, lazy, other=other, pre=pre, reusable=reference == 0, neighbors=nl)
+            dd = make_dd(am, s0, s1, reference, lazy, other=other, pre=pre, reusable=reusable, neighbors=nl)
         else:
-            dd = make_dd(am, s0, s1, reference, lazy, other=other, pre=pre, reusable=reference == 0, cutoff=rc)
+            dd = make_dd(am, s0, s1, reference, lazy, other=other, pre=pre, reusable=reusable, cutoff=rc)
     require(dd.reference == reference, lambda: '%s: reference is %r' % (what, dd.reference))
     Il, Jl = nlist_pairs(dd.neighbors, N)
     band = 1e-7 * rc
@@ -1282,18 +1355,24 @@ def oracle_slip(case):
     # ---- the two System objects and their earlier life.  wrap() of the reference is kept to cases where the cut axis is
     # open (along a periodic cut axis it may move a whole boundary layer to the other side, which changes which two
     # planes adjoin the slip plane - the planes the case was built around)
-    s0, kept0, pos0 = make_reference(am, hist, r, pbc, xt, rc, labels, not sl['cutpbc'])
-    pre = {}
-
-    def while_A(sA, keptA):
-        if lazy == 5:
-            with warnings.catch_warnings():
-                warnings.simplefilter('ignore')
-                pre['dd'] = am.defect.DifferentialDisplacement(s0, sA, cutoff=rc, reference=case['ddref'])
+    s0, finish0 = make_reference(am, hist, r, pbc, xt, rc, labels, not sl['cutpbc'], staged=True)
     stateA = (r.pos, r.vects, r.origin)
     if hist['build1'] and hist['build1']['state'] == 'other':
         stateA = (r.pos - 0.5 * u, r.vects, r.origin)           # the opposite slip, not wrapped
-    s1, kept1, pos1 = make_current(am, hist, r, stateA, pos1, r.vects, origin1, pbc, xt, rc, labels, True, while_A)
+    s1, _, finish1 = staged_system(am, hist['build1'], hist['ops1'], hist['intpos'], r.atype, stateA, (pos1, r.vects, origin1, pbc),
+                                   xt, rc, labels, True, 'deformed system')
+    pre = {}
+    if lazy == 5 and (hist['build1'] or hist.get('build0')):
+        # an analysis object that sees the two System objects before they are brought to the judged state
+        with warnings.catch_warnings():
+            warnings.simplefilter('ignore')
+            pre['dd'] = am.defect.DifferentialDisplacement(s0, s1, cutoff=rc, reference=case['ddref'])
+    kept0, pos0 = finish0()
+    kept1, pos1 = finish1()
+    # a list stored by that object is still the reference system's list only for reference=0 and a reference object that
+    # kept its periodicity (its earlier state is the same crystal expanded by 0.3 %: the same pairs)
+    b0 = hist.get('build0')
+    reusable = case['ddref'] == 0 and not (b0 and b0['pbcflip'])
     if not (kept0 and kept1):
         return labels | {'box_zeroed_skip'}
     I0, J0, D0, L0 = pair_table(r.pos, r.vects, pbc, rc)
@@ -1336,7 +1415,7 @@ def oracle_slip(case):
         run_decoy(am)
     oc, _ = other_cutoff(xt, rc, sl['layer'], sl['frac'])
     _dd_check(am, 'DifferentialDisplacement(reference=%d, %s, construction %d)' % (case['ddref'], case['ddnbr'], lazy),
-              s0, s1, r, pos1, pbc, rc, u, case['ddref'], case['ddnbr'], labels, lazy, pos0, oc, pre.get('dd'))
+              s0, s1, r, pos1, pbc, rc, u, case['ddref'], case['ddnbr'], labels, lazy, pos0, oc, pre.get('dd'), reusable)
     if lazy:
         labels.add('dd_solve_later')
     if lazy >= 3:
@@ -1611,21 +1690,33 @@ def oracle_invariance(case):
 
 CLAUSES = [
     Clause('displacement', oracle_displacement, G17.displacement_cases, quick=1200, thorough=20000,
-           min_share={'nt': 0.3, 'rewrapped': 0.4, 'direct': 0.25, 'box_differs': 0.08, 'searched': 0.05},
+           min_share={'nt': 0.3, 'rewrapped': 0.4, 'direct': 0.25, 'box_differs': 0.08, 'searched': 0.05,
+                      'queried0': 0.35, 'queried1': 0.35, 'q_other_shells': 0.13, 'inplace_built': 0.22, 'ref_inplace_built': 0.12,
+                      'cur_inplace_built': 0.16, 'decoy': 0.15, 'repeat': 0.18, 'int_pos': 0.015},
            desc='displacement() = imposed displacement through the periodic boundaries (homogeneous F with deformed cell, rigid slip, '
-                'random per-atom vectors up to 0.45 cell widths, translations by several cells), every box_reference setting'),
+                'random per-atom vectors up to 0.45 cell widths, translations by several cells), every box_reference setting, on '
+                'System objects that were queried before and / or brought to their state in place'),
     Clause('strain', oracle_strain, G17.strain_cases, quick=1000, thorough=14000,
            min_share={'nt': 0.15, 'F_both': 0.2, 'subset_dup': 0.06, 'wrapper': 0.1, 'surface': 0.15, 'axes_given': 0.08,
-                      'nbr_neighbors': 0.1, 'twotype': 0.15, 'theta_given': 0.15},
+                      'nbr_neighbors': 0.1, 'twotype': 0.15, 'theta_given': 0.15,
+                      'queried0': 0.35, 'queried1': 0.35, 'q_other_shells': 0.25, 'am_wrapped': 0.07, 'strain_resolved': 0.2,
+                      'sh_inplace': 0.1, 'sh_pvec': 0.06, 'rs_solve': 0.1, 'derived_read_before': 0.2, 'derived_read_first': 0.4,
+                      'stage0_judged': 0.17, 'dd_resolved': 0.22, 'nbr_attr': 0.1},
            desc='homogeneous F: Strain.G = F^-T at every atom with a 3-D neighbour set, strain/rotation/invariants/angular velocity, '
-                'zero Nye tensor, asdict, nye_tensor() function, (F-I).d0 differential displacements'),
+                'zero Nye tensor, asdict, save_to_system, nye_tensor() function, (F-I).d0 differential displacements; for fresh '
+                'objects and for Strain / DifferentialDisplacement objects in their second state (solved, read, changed, solved again)'),
     Clause('slip', oracle_slip, G17.slip_cases, quick=1000, thorough=14000,
            min_share={'nt': 0.15, 'slip_generic': 0.2, 'nye_class_vs_function': 0.12, 'nye_nonuniform': 0.12, 'cut_periodic': 0.1,
-                      'inplane_open': 0.1, 'ddref1': 0.15, 'both_halves_move': 0.2},
+                      'inplane_open': 0.1, 'ddref1': 0.15, 'both_halves_move': 0.2,
+                      'queried0': 0.33, 'queried1': 0.33, 'q_other_shells': 0.22, 'q_r0': 0.07, 'inplace_built': 0.22,
+                      'ref_inplace_built': 0.12, 'cur_inplace_built': 0.15, 'decoy': 0.15, 'repeat': 0.18, 'dd_resolved': 0.18,
+                      'sv_attr': 0.07, 'int_pos': 0.015},
            desc='rigid slip: slip_vector = n_across x relative displacement of the own half, disregistry = slip at every coordinate, '
-                'ddvectors = u_j - u_i per listed pair (both references), Nye tensor of class / function / own curl agree'),
+                'ddvectors = u_j - u_i per listed pair (both references), Nye tensor of class / function / own curl agree; on System '
+                'objects with earlier neighbour-list queries / stale neighbors attributes / in-place construction, repeated calls'),
     Clause('invariance', oracle_invariance, G17.invariance_cases, quick=560, thorough=8000,
-           min_share={'nt': 0.25, 'cfg_slip': 0.2, 'cfg_F': 0.2, 'nye_compared': 0.5, 'rewrapped': 0.2},
+           min_share={'nt': 0.25, 'cfg_slip': 0.2, 'cfg_F': 0.2, 'nye_compared': 0.5, 'rewrapped': 0.2,
+                      'queried0': 0.3, 'queried1': 0.29, 'q_other_shells': 0.23, 'decoy': 0.16},
            desc='all results unchanged (per-atom arrays permuted, pair list mapped) under a common translation with or without '
-                're-wrapping and a consistent renumbering'),
+                're-wrapping and a consistent renumbering; the first pair of objects has been used before, the second is fresh'),
 ]
